@@ -123,5 +123,7 @@ func CreateSpliceInsertPayload(p SpliceInsertParams) []byte {
 	cmd.SetIsOut(p.OutOfNetworkIndicator)
 	cmd.SetSpliceImmediate(p.SpliceImmediateFlag)
 	s.SetCommandInfo(cmd)
+	// The signal's own PTS must equal the command's, otherwise pts_adjustment becomes -pts_time
+	s.SetPTS(gots.PTS(p.PtsTime))
 	return s.UpdateData()
 }
